@@ -22,26 +22,26 @@ def _patches(props):
     out = []
     for fn in sorted(glob.glob(os.path.join(env.VERIF, "mutants", "C*-*.diff"))):
         prop = os.path.basename(fn).split("-")[0]
-        out.append((prop, fn, os.path.basename(fn)))
+        out.append((prop, fn, os.path.basename(fn), "HEAD"))
     for d in sorted(glob.glob(os.path.join(env.VERIF, "seeded", "*"))):
         meta = os.path.join(d, "meta.json")
         patch = os.path.join(d, "patch.diff")
         if os.path.exists(meta) and os.path.exists(patch):
             with open(meta) as f:
                 m = json.load(f)
-            out.append((m.get("property", os.path.basename(d).split("-")[0]), patch, "seeded/" + os.path.basename(d)))
+            out.append((m.get("property", os.path.basename(d).split("-")[0]), patch, "seeded/" + os.path.basename(d), m.get("base", "HEAD")))
     if props:
         out = [p for p in out if p[0] in props]
     return out
 
 
 def _one(item, workers):
-    prop, patch, name = item
+    prop, patch, name, base = item
     wt = tempfile.mkdtemp(prefix="vf-mut-")
     os.rmdir(wt)
     t0 = time.time()
     try:
-        subprocess.run(["git", "-C", "/repo", "worktree", "add", "-q", "--detach", wt, "HEAD"], check=True,
+        subprocess.run(["git", "-C", "/repo", "worktree", "add", "-q", "--detach", wt, base], check=True,
                        stdout=subprocess.PIPE, stderr=subprocess.STDOUT)
         # strip leading comment lines of our mutant files
         with open(patch) as f:
